@@ -66,6 +66,20 @@ pub fn call_graph_shapes(rng: &mut Rng) -> Vec<Shape> {
         p.push(Ins::ret());
         v.push(Shape { name: "function-in-the-data-segment", prog: p });
     }
+    // a leaf routine that keeps its return address in a temporary and leaves through it
+    {
+        let mut p = Program::default();
+        let r = t(rng);
+        p.label("main");
+        p.push(Ins::li(A0, k));
+        p.push(Ins::call("leaf"));
+        exit(&mut p);
+        p.label("leaf");
+        p.push(Ins::mv(r, RA));
+        p.push(Ins::addi(A0, A0, 1));
+        p.push(Ins::Jalr { rd: ZERO, rs1: r, imm: 0 });
+        v.push(Shape { name: "return-through-a-temporary", prog: p });
+    }
     // interleaved bodies: f continues behind g
     {
         let mut p = Program::default();
